@@ -3,7 +3,8 @@ Open Scope Q_scope.
 
 Inductive case09 :=
 | K09s (v : list ipt) (tol : Q) (impl : option (list Z))         (* supersample: indices of the surviving objects *)
-| K09p (pts : list pt) (tol : Q) (impl : option bool) (maxdist : option Q).   (* points_in_tolerance; max_dist_from_n_points *)
+| K09p (pts : list pt) (tol : Q) (impl : option bool) (maxdist : option Q)   (* points_in_tolerance; max_dist_from_n_points *)
+| K09f (v : list ipt) (tol : Q) (impl : option (list Z)).        (* supersample run on floats: judged in exact arithmetic, tolerance slack 1e-6 *)
 
 Fixpoint zlist_eqb (a b : list Z) : bool :=
   match a, b with [], [] => true | x :: a', y :: b' => (x =? y)%Z && zlist_eqb a' b' | _, _ => false end.
@@ -32,6 +33,8 @@ Definition check09 (c : case09) : Z :=
   match c with
   | K09s v tol None => 3%Z
   | K09s v tol (Some kept) => code_of (negb (zlist_eqb (supersample_idx v tol) kept)) (negb (red_ok v tol kept))
+  | K09f v tol None => 3%Z
+  | K09f v tol (Some kept) => code_of false (negb (red_ok v (tol * (1000001 # 1000000)) kept))
   | K09p pts tol None _ => 3%Z
   | K09p pts tol (Some b) md =>
       let m := points_in_tolerance pts tol in
